@@ -456,6 +456,19 @@ def main():
     except Exception as e:
         status['hist'] = 'failed: %s' % e
     try:
+        import selecttrans
+        g9 = dict(golden)
+        txt, sst2 = selecttrans.lean_file(g9)
+        changed |= write_if_changed(os.path.join(GEN, 'SelectGen.lean'), txt)
+        for k_, v_ in sst2.items():
+            status['functions'][k_] = dict(v_, lean=k_, params=[], bools=[], selfattrs=[], absparams=[], nret=1, abscalls=[])
+        if update:
+            for k_, v_ in g9.items():
+                if k_.startswith('select:'):
+                    golden[k_] = v_
+    except Exception as e:
+        status['selecttrans'] = 'failed: %s' % e
+    try:
         import cachesites
         txt, sites = cachesites.lean_table(os.environ.get('IXPE_REPO', os.path.dirname(os.path.dirname(importlib.import_module('ixpeobssim').__file__))))
         changed |= write_if_changed(os.path.join(GEN, 'CacheSites.lean'), txt)
